@@ -150,7 +150,9 @@ where
 }
 
 fn observe(c: &Case, content: Content) -> Obs {
-    let (store, list) = store_for(c.op, content);
+    let (mut store, list) = store_for(c.op, content);
+    // half of the configurations run on a store that reports "nothing found" as Ok(empty list)
+    store.empty_ok = !c.presence_cap;
     let before = store.recs();
     let log = Log::new();
     if c.level == 1 {
@@ -509,7 +511,7 @@ pub fn run(ctx: &Ctx) -> Result<Run, String> {
     }
     let mut run = Run::from_stats(
         "model_checking",
-        "complete product op x rk x up x uv x verification-capability x presence-capability x validation-outcome(7) x pin-auth x store kind, each with 6 store contents incl. two simultaneously matching credentials (CTAP2 level) plus userVerification(4) x op x capability x outcome at client level; plus all ordered pairs of (operation, uv requested, validation outcome) ceremonies on ONE authenticator (consent must not carry over); a configuration is non-trivial when at least one of its ceremonies succeeded or was refused for a consent reason (0x27/0x2B)",
+        "complete product op x rk x up x uv x verification-capability x presence-capability (the configurations with presence capability off also use a store that answers 'nothing found' with Ok(empty) instead of an error) x validation-outcome(7) x pin-auth x store kind, each with 6 store contents incl. two simultaneously matching credentials (CTAP2 level) plus userVerification(4) x op x capability x outcome at client level; plus all ordered pairs of (operation, uv requested, validation outcome) ceremonies on ONE authenticator (consent must not carry over); a configuration is non-trivial when at least one of its ceremonies succeeded or was refused for a consent reason (0x27/0x2B)",
         true,
         stats,
     );
